@@ -45,3 +45,16 @@ def all_in(ex, st, a, b):
     """every member of collection a is a member (key) of collection b"""
     x = fresh("ax", V)
     return S_bool(z3.ForAll([x], z3.Implies(Q.Contains(as_seq(a, st), x), Q.Contains(as_seq(b, st), x))))
+
+
+@spec_function()
+def pair_first(ex, st, p):
+    """first component of a 2-tuple value, as int"""
+    from pyvc.core import unS, unI
+    return S_int(unI(Q.At(unS(box(p, st)), 0)))
+
+
+@spec_function()
+def unI_(ex, st, v):
+    from pyvc.core import unI
+    return S_int(unI(box(v, st)))
